@@ -152,6 +152,8 @@ class Project:
                     tree = ast.parse(src, filename=rel)
             except SyntaxError as e:
                 raise AnalysisError(f"{rel}: syntax error: {e}")
+            from .desugar import desugar_module
+            tree = desugar_module(tree)
             m = Module(name=name, path=path, relpath=rel, src=src, tree=tree)
             self.modules[name] = m
         self.digest = h.hexdigest()[:16]
